@@ -58,7 +58,7 @@ Episode(x) ==
 
 Init == stage = 0 /\ w = [n |-> 0] /\ ep = [kind |-> "none"] /\ ps0 = {}
 Next == /\ stage = 0 /\ stage' = 1
-        /\ \E n \in 1..NPEERS :
+        /\ \E n \in {IF RandomElement(1..15) = 1 THEN 1 ELSE RandomElement(2..NPEERS)} :
              LET x == World(n, n) e == Episode(x) IN
              /\ ep' = e
              \* the monitors of the survivors hold no valid metric of a failed peer
